@@ -64,9 +64,88 @@ type C11Case struct {
 	// liar answers from (default: the valid child of the honest tip when the
 	// liar claims the honest chain, else the honest chain).
 	AltTip int `json:"alt_tip,omitempty"`
+	// Synth, if set, adds a lie-free Byzantine peer that serves a synthetic,
+	// self-consistent branch with one consensus-invalid block (see SynthSpec).
+	Synth *SynthSpec `json:"synth,omitempty"`
 	// Slow, if set, adds a Byzantine peer in the honest peers' subnet that
 	// saturates the subnet's in-flight budget with half-open RPC streams.
 	Slow *SlowSpec `json:"slow,omitempty"`
+}
+
+// SynthSpec describes a branch no honest node could build: it leaves the
+// honest chain at height Fork, is Len empty blocks long, and its block at height
+// BadAt carries a payment that creates one hasting out of nothing - the header,
+// the payouts and everything else ValidateOrphan looks at are fine, the block
+// violates consensus. Every later block is built on
+// the state obtained by applying its predecessors *without* validation, so the
+// branch is self-consistent: commitments, checkpoints and per-block validation
+// against the liar's own states all pass. Only a node that applies the branch
+// from the fork point meets the invalid block.
+type SynthSpec struct {
+	Fork  int `json:"fork"`
+	BadAt int `json:"bad_at"`
+	Len   int `json:"len"`
+}
+
+// synthChain materialises a SynthSpec on top of the honest chain.
+func synthChain(tr *kit.Tree, H *kit.TNode, sp SynthSpec) p2px.Chain {
+	path := H.PathFromGenesis()
+	fork := max(0, min(sp.Fork, len(path)))
+	out := p2px.Chain{Tree: tr, Path: append([]*kit.TNode(nil), path[:fork]...)}
+	parent := tr.Root
+	if fork > 0 {
+		parent = path[fork-1]
+	}
+	led := parent.Ledger // reference ledger while the branch is still valid
+	cs := led.State
+	for i := 0; i < sp.Len; i++ {
+		height := parent.Height + 1
+		ts := parent.Block.Timestamp.Add(time.Second)
+		bad := int(height) == sp.BadAt && led != nil
+		var b types.Block
+		if bad {
+			// a v2 payment whose outputs exceed its input by one hasting, signed
+			// again: nothing a header or ValidateOrphan looks at is wrong
+			var txns []types.V2Transaction
+			for who := 0; who < kit.NumActors && len(txns) == 0; who++ {
+				bb := kit.NewBlockBuilder(led)
+				if bb.Add(kit.Intent{Kind: "v2pay", Who: who, To: (who + 1) % kit.NumActors, Amt: 3}) {
+					txn := bb.V2Txns[0].DeepCopy()
+					txn.SiacoinOutputs[0].Value = txn.SiacoinOutputs[0].Value.Add(types.NewCurrency64(1))
+					kit.SignV2(cs, &txn)
+					txns = []types.V2Transaction{txn}
+				}
+			}
+			b = kit.AssembleBlock(cs, ts, kit.Actors[3].Addr, nil, txns, uint64(7000+i))
+			bad = len(txns) > 0
+		} else {
+			b = kit.AssembleBlock(cs, ts, kit.Actors[3].Addr, nil, nil, uint64(7000+i))
+		}
+		if nb, ok := kit.Normalize(b); ok {
+			b = nb
+		}
+		n := &kit.TNode{Idx: 1 << 20, Parent: parent, Block: b, ID: b.ID(), Height: height, OwnInvalid: bad}
+		if led != nil && !bad {
+			if nl, err := led.Apply(b, nil); err == nil {
+				led, cs = nl, nl.State
+				n.Hdr = cs
+				out.Path = append(out.Path, n)
+				parent = n
+				continue
+			}
+		}
+		// from the invalid block on: states by application without validation
+		led = nil
+		cs, _ = consensus.ApplyBlock(cs, b, consensus.V1BlockSupplement{}, time.Time{})
+		n.Hdr = cs
+		n.Err = fmt.Errorf("synthetic branch with an invalid block at height %d", sp.BadAt)
+		if bad {
+			n.Corrupt = "overspend"
+		}
+		out.Path = append(out.Path, n)
+		parent = n
+	}
+	return out
 }
 
 // SlowSpec: the victim runs with small RPC limits (per-peer L, per-subnet S,
@@ -252,9 +331,10 @@ func nodeAt(tr *kit.Tree, idx int) *kit.TNode {
 
 // c11Info reports what a case reached (for the enumerated stage).
 type c11Info struct {
-	Delivered []bool // per Byzantine peer: its lie went out and differed from the honest payload
-	SlowHeld  bool   // the half-open streams were opened and held
-	Quiescent bool
+	Delivered    []bool // per Byzantine peer: its lie went out and differed from the honest payload
+	SlowHeld     bool   // the half-open streams were opened and held
+	SynthReached bool   // the synthetic liar was asked for a checkpoint and for blocks
+	Quiescent    bool
 }
 
 func runC11(c C11Case, cs *kit.CaseStats) error { return runC11x(c, cs, nil) }
@@ -336,6 +416,20 @@ func runC11x(c C11Case, cs *kit.CaseStats, info *c11Info) error {
 			bp.Alt = p2px.ChainTo(tr, a)
 		}
 		byz = append(byz, bp)
+	}
+	synthIdx := -1
+	if c.Synth != nil && H.Block.V2 != nil {
+		gw := &p2px.GWPeer{Genesis: genesisID, UniqueID: p2px.DetUniqueID("c11-synth"), IP: p2px.ListenIP(30)}
+		if err := gw.Listen(); err != nil {
+			return fmt.Errorf("INFRA: %v", err)
+		}
+		bp := p2px.NewByzPeer(gw, synthChain(tr, H, *c.Synth), p2px.Corruption{RPC: "none"})
+		bp.Alt = p2px.ChainTo(tr, H)
+		synthIdx = len(byz)
+		byz = append(byz, bp)
+		// (the bookkeeping below is per Byzantine peer: the synthetic one is a
+		// lie-free peer whose tree-side claim is the honest chain)
+		c.Byz = append(append([]ByzSpec(nil), c.Byz...), ByzSpec{Tip: c.Honest, Corr: p2px.Corruption{RPC: "none"}})
 	}
 
 	// ---- the victim
@@ -819,6 +913,16 @@ func runC11x(c C11Case, cs *kit.CaseStats, info *c11Info) error {
 		}
 	}
 	// what was exercised
+	if synthIdx >= 0 {
+		reached := byz[synthIdx].Seen("checkpoint") > 0 && byz[synthIdx].Seen("blocks") > 0
+		if reached {
+			cs.NonTrivial()
+			cs.Class("lie-delivered:synthetic/invalid-ancestor-below-require(pre-validated-batch-on-top)")
+		}
+		if info != nil {
+			info.SynthReached = reached
+		}
+	}
 	if c.Slow != nil {
 		if slowHeld.Load() {
 			cs.NonTrivial()
